@@ -68,7 +68,10 @@ LOCALES = ["de", "fr", "ja", "pt-BR"]
 FOREIGN = "xx"
 MODS = ["browser", "toolkit", "mobile"]
 TESTS = ["android-dtd", "extra", "l10n-x"]
-POOL = ["a.ftl", "b.properties", "foo-1.ftl", "foo-x.ftl", "foo-.ftl", "exact.ftl", "z.txt",
+META_MODS = ["c++", "app (beta)", "a.b"]          # regex metacharacters in directory names
+META_LDIRS = ["l10n+central", "l10n (beta)", "l.10n"]
+NEAR = {"a.b": "aXb", "l.10n": "lX10n"}            # what the name would also match if read as a regex
+POOL = ["notes-ftl", "backup_ftl", "bXproperties", "exact-ftl", "a.ftl", "b.properties", "foo-1.ftl", "foo-x.ftl", "foo-.ftl", "exact.ftl", "z.txt",
         "x/main.ftl", "sub/main.ftl", "sub/b.ftl", "sub/foo-2.ftl", "sub/deep/c.properties",
         "sub/deep/d.ftl", "strings.ftl"]
 TAILS = ["**", "**/*.ftl", "*.properties", "foo-*.ftl", "exact.ftl", "*/main.ftl", "sub/**",
@@ -239,24 +242,27 @@ def gen_project(rng, kind="main", spelled=None):
     p = Proj()
     p.kind = kind
     p.locales = sorted(rng.sample(LOCALES, rng.randint(1, 3)))
-    mods = rng.sample(MODS, rng.randint(1, 2))
+    mods = rng.sample(MODS + rng.sample(META_MODS, 1), rng.randint(1, 2))
+    # the l10n directory, sometimes with regex metacharacters in its name (also as value of
+    # l10n_base / base)
+    LD = "l10n" if spelled or rng.random() < 0.6 else rng.choice(META_LDIRS)
     # environment ----------------------------------------------------------
     penv, fenv = {}, {}
-    lbases = ["l10n"]
+    lbases = [LD]
     mode = rng.randrange(5)
     if mode == 1:       # only the parser knows l10n_base
-        penv["l10n_base"] = "{T}/p/l10n"
+        penv["l10n_base"] = "{T}/p/" + LD
         lbases += ["{l10n_base}"] * 2
     elif mode == 2:     # the file's value is overridden by the parser's
         fenv["l10n_base"] = "{T}/p/bogus"
-        penv["l10n_base"] = "{T}/p/l10n"
+        penv["l10n_base"] = "{T}/p/" + LD
         lbases += ["{l10n_base}"] * 2
     elif mode == 3:     # nested variable in the file, base from the parser
         fenv["l"] = "{l10n_base}"
-        penv["l10n_base"] = "{T}/p/l10n"
+        penv["l10n_base"] = "{T}/p/" + LD
         lbases += ["{l}", "{l10n_base}"]
     elif mode == 4:     # relative variable of the file
-        fenv["base"] = "l10n"
+        fenv["base"] = LD
         lbases += ["{base}"] * 2
     refbase = ""
     if spelled == "slash":
@@ -450,7 +456,7 @@ def gen_project(rng, kind="main", spelled=None):
         p.flags.add("android")
     if kind == "main" and not spelled and rng.random() < 0.05:
         m = mods[0]
-        top.rules.append(Rule("%s/en/{nope}/*.ftl" % m, "l10n/{locale}/%s/{nope}/*.ftl" % m))
+        top.rules.append(Rule("%s/en/{nope}/*.ftl" % m, "%s/{locale}/%s/{nope}/*.ftl" % (LD, m)))
         p.flags.add("unbound")
     # an alternative root for one child
     if children and not top.excludes and not spelled and rng.random() < 0.15:
@@ -467,7 +473,7 @@ def gen_project(rng, kind="main", spelled=None):
         rootw = rng.choice(["star", "starstar", "l10n-star", "l10n-dot"])
         tests = rng.choice([None, ["extra"]])
         if rootw == "star":
-            top.rules.append(Rule("*.ftl", "l10n/{locale}/*.ftl", None, tests))
+            top.rules.append(Rule("*.ftl", LD + "/{locale}/*.ftl", None, tests))
         elif rootw == "starstar":
             top.rules.append(Rule("**/en/rootw.ftl", "**/{locale}/rootw.ftl", None, tests))
         elif rootw == "l10n-star":
@@ -477,7 +483,7 @@ def gen_project(rng, kind="main", spelled=None):
     # tree ---------------------------------------------------------------------
     files = set()
     if rootw == "star":
-        files |= {"top1.ftl", "top2.ftl"} | {"l10n/%s/top%d.ftl" % (l, rng.randint(1, 3)) for l in p.locales}
+        files |= {"top1.ftl", "top2.ftl"} | {"%s/%s/top%d.ftl" % (LD, l, rng.randint(1, 3)) for l in p.locales}
     elif rootw == "starstar":
         files |= {"%s/en/rootw.ftl" % mods[0], "deep/er/en/rootw.ftl"}
         files |= {"%s/%s/rootw.ftl" % (rng.choice([mods[0], "deep/er", "l10n"]), l) for l in p.locales}
@@ -488,18 +494,20 @@ def gen_project(rng, kind="main", spelled=None):
     p.rootw = rootw
     roots = [""] if spelled else sorted({c.root_rel for c in p.cfgs.values()})
     for root in roots:
-        for mod in mods + ["other"]:
-            pool = rng.sample(POOL, rng.randint(3, 7))
+        for mod in mods + ["other"] + [NEAR[m] for m in mods if m in NEAR]:
+            pool = rng.sample(POOL, rng.randint(3, 8))
             for name in pool:
                 if rng.random() < 0.65:
                     files.add("%s%s/en/%s" % (root, mod, name))
                 for loc in p.locales + [FOREIGN]:
                     if rng.random() < (0.45 if loc != FOREIGN else 0.2):
                         base = "" if root == "" or rng.random() < 0.5 else root
-                        files.add("%sl10n/%s/%s/%s" % (base, loc, mod, name))
+                        files.add("%s%s/%s/%s/%s" % (base, LD, loc, mod, name))
+                        if LD in NEAR and rng.random() < 0.3:
+                            files.add("%s%s/%s/%s/%s" % (base, NEAR[LD], loc, mod, name))
             for loc in p.locales:
                 if rng.random() < 0.2:
-                    files.add("l10n/%s/strings-%s.ftl" % (mod, loc))
+                    files.add("%s/%s/strings-%s.ftl" % (LD, mod, loc))
     if "android" in p.flags:
         files.add("mobile/res/values/strings.xml")
         for d in ("de", "pt-rBR", "b+de+Latn", "fr"):
@@ -509,9 +517,10 @@ def gen_project(rng, kind="main", spelled=None):
         files.add("%s/en/q/u.ftl" % mods[0])
         for loc in p.locales:
             if rng.random() < 0.6:
-                files.add("l10n/%s/%s/q/u.ftl" % (loc, mods[0]))
+                files.add("%s/%s/%s/q/u.ftl" % (LD, loc, mods[0]))
     p.files = sorted(files)
     p._gen = (mods, lbases, fenv)
+    p.ldir = LD
     return p
 
 
@@ -756,6 +765,31 @@ def render(root, text, env, fills):
     return s if s.startswith("/") else root + s
 
 
+def spec_regex(root, text, env):
+    """the regular expression a pattern text MEANS, written down here independently of
+    paths/matcher.py: literal text is literal (re.escape), a variable is its literal value, `*`
+    stays inside a path segment, `**/` is nothing or directories, a trailing `**` nothing or a
+    rest; None if a variable is unbound"""
+    out, pos, n = [], 0, 0
+    for m in TOK.finditer(text):
+        out.append(re.escape(text[pos:m.start()]))
+        pos = m.end()
+        if m.group(1):
+            v = expand_var(m.group(1), env)
+            if v is None or TOK.search(v):
+                return None
+            out.append(re.escape(v))
+        else:
+            n += 1
+            tok = m.group(0)
+            out.append("(?P<s%d>%s)" % (n, "[^/]*" if tok == "*" else ".+/" if tok == "**/" else ".+")
+                       + ("" if tok == "*" else "?"))
+    out.append(re.escape(text[pos:]))
+    start = render("", text, env, {})
+    lead = "" if (start or "").startswith("/") else re.escape(root)
+    return re.compile(lead + "".join(out) + r"\Z")
+
+
 class Oracle:
     """coverage of one project for one locale from the description + Matcher.match"""
 
@@ -893,6 +927,24 @@ class Oracle:
             return any(lm.match(f) is not None or (rm is not None and rm.match(f) is not None)
                        for lm, rm in xms)
         ms = [self.matchers(c, r, locale) for c, r in rules]
+        # the Matcher must read the pattern texts as the configuration format defines them
+        from compare_locales.paths import REFERENCE_LOCALE
+        self.mismatch = None
+        for (c, r), (lm, rm) in zip(rules + xrules, ms + xms):
+            env = self.env_of(c)
+            for text, m, e in ((r.l10n, lm, dict(env, locale=locale or REFERENCE_LOCALE)), (r.ref, rm, env)):
+                if m is None or self.mismatch:
+                    continue
+                spec = spec_regex(self.root_of(c), text, e)
+                if spec is None:
+                    continue
+                for f in self.universe(fs):
+                    a, b = spec.match(f), m.match(f)
+                    if (a is None) != (b is None) or (a is not None and any(
+                            (a.group(k) or "") != (b.get(k) or "") for k in a.groupdict())):
+                        self.mismatch = {"pattern": text, "root": self.root_of(c), "path": f,
+                                         "Matcher.match": str(b), "pattern text means": str(a and a.groupdict())}
+                        break
 
         def tests_of(i):
             c, r = rules[i]
@@ -1226,10 +1278,24 @@ def run_one(chk, p, T, locales_to_run, stats, api=False):
                              if obs[1] == 1 else obs[1])
                 elif not p.flags:
                     oracle_details(chk, desc, cfgs, obs[1], log, locale, pd)
+            # iter_reference() on an object of its own (for a locale too), and then the SAME object
+            # iterated and asked again: nothing may have changed
+            pf2 = ProjectFiles(locale, cfgs, mergebase=mb)
+            refit = guarded(lambda: [entry_canon(e) for e in pf2.iter_reference()])
+            again = guarded(lambda: list(pf2))
+            m_again = [opt(entry_canon(r) if r is not None else None)
+                       for r in (pf2.match(q) for q in queries)]
+            enum_c = [enum[0], [entry_canon(e) for e in enum[1]]] if enum[0] == 0 else enum
+            again_c = [again[0], [entry_canon(e) for e in again[1]]] if again[0] == 0 else again
+            if again_c != enum_c or m_again != matches or \
+                    (pf2.exclude is None) != (pf.exclude is None):
+                bad = [q for q, x, y in zip(queries, matches, m_again) if x != y][:3]
+                chk.fail(("" if p.kind == "main" else p.kind + ":") + "state-changed-by-iter_reference", desc,
+                         {"enumeration_same": again_c == enum_c, "lookups_differ_for": bad,
+                          "exclude_kept": (pf2.exclude is None) == (pf.exclude is None)})
             out = [0, [ms_canon(pf.matchers),
                        opt(ms_canon(pf.exclude.matchers) if pf.exclude is not None else None),
-                       [enum[0], [entry_canon(e) for e in enum[1]]] if enum[0] == 0 else enum,
-                       matches, drive]]
+                       enum_c, matches, drive, refit]]
         out = canon_strings(out)
         reqs.append((0, req))
         impls.append(out)
@@ -1270,6 +1336,9 @@ def check_enumeration(chk, desc, oracle, locale, mb, fs, built, enum, pf, p):
         # with_env({"locale": None, ...}): PatternParser.parse(None)
         if pf is not None and any(c.rules for c in p.cfgs.values()) and not raises:
             chk.hist("build_raise", "None+mergebase accepted (no rule reached)")
+        return
+    if getattr(oracle, "mismatch", None):
+        chk.fail(sig + "matcher-disagrees-with-pattern-text", desc, oracle.mismatch)
         return
     if raises:
         chk.hist("build_raise", "duplicate rules with differing references")
@@ -1544,6 +1613,9 @@ def run(chk, runner_ok):
             descs += c
             chk.hist("include_shape", p.shape)
             chk.hist("wildcard_first_rule", p.rootw or "-")
+            chk.hist("l10n_dir", p.ldir)
+            for m_ in p._gen[0]:
+                chk.hist("module_dir", m_)
             chk.hist("built_by", "api" if i % 4 == 3 else "toml")
             chk.hist("toml_files", len(p.cfgs))
             chk.hist("flags", ",".join(sorted(p.flags)) or "-")
